@@ -722,7 +722,7 @@ def _(b, cs, tag):
     b.batch(cs, [P_("", t), B_(""), {"t": "D", "kind": "P", "name": ""}, E_, SY], "ext_describe_P", parses=[("", t)], execs=[t], binds=[""], tag=tag)
 
 
-@_ext("ext_close_S", w=1.5)
+@_ext("ext_close_S", w=2.5)
 def _(b, cs, tag):
     usable = [n for n in cs.named if cs.ps or cs.holding]
     if usable:
@@ -748,7 +748,7 @@ def _(b, cs, tag):
     b.batch(cs, [P_("", t), {"t": "H"}, B_(""), E_, SY], "ext_flush", parses=[("", t)], execs=[t], binds=[""], tag=tag)
 
 
-@_ext("ext_lone_sync", w=1)
+@_ext("ext_lone_sync", w=2)
 def _(b, cs, tag):
     b.batch(cs, [SY], "ext_lone_sync", tag=tag, local_reply=True)
 
